@@ -133,6 +133,10 @@ def part3(chk, tier, rnd):
     for v in (5, 2147483647, 2147483648, 3000000000, 4294967295, 4294967296, 1 << 40):
         cases.append((None, 64, 0, v, str(v), 'untyped-compare'))
         cases.append((None, 64, 0, v, str(v), 'untyped-divide'))
+    # an unannotated local whose type is decided by a LATER literal assignment (and by a compound assignment)
+    for v in (7, 2147483647, 2147483648, 3000000000, 4294967296, 1 << 40, (1 << 63) - 1, (1 << 64) - 1):
+        cases.append((None, 64, 0, v, str(v), 'untyped-reassign'))
+        cases.append((None, 64, 0, v, str(v), 'untyped-reassign-twice'))
     bad = 0
     for i, (t, w, sg, v, sp, how) in enumerate(cases):
         if how == 'annotated':
@@ -149,6 +153,13 @@ def part3(chk, tier, rnd):
         elif how == 'untyped-compare':
             # the written value is > 1, so `x > 1` must hold; observed value: 7 when it holds, 0 otherwise
             src = 'lit :: (r: ^mut u64) { x := %s; r^ = 0; if x > 1 { r^ = 7; } }\nmain :: () { p := lit; }\n' % sp
+            fits = True; w = 64; v = 7
+        elif how == 'untyped-reassign':
+            # nothing but literals ever gives x a type (a cast such as u64.(x) would); the written value is > 5
+            src = 'lit :: (r: ^mut u64) { x := 5; x = %s; r^ = 0; if x > 5 { r^ = 7; } }\nmain :: () { p := lit; }\n' % sp
+            fits = True; w = 64; v = 7
+        elif how == 'untyped-reassign-twice':
+            src = 'lit :: (r: ^mut u64) { x := 5; x = 9; x = %s; y := x; r^ = 0; if y / 2 > 2 { r^ = 7; } }\nmain :: () { p := lit; }\n' % sp
             fits = True; w = 64; v = 7
         elif how == 'untyped-divide':
             src = 'lit :: (r: ^mut u64) { x := %s; r^ = 0; if x / 2 > 0 { r^ = 7; } }\nmain :: () { p := lit; }\n' % sp
